@@ -268,3 +268,207 @@ class XorFrame:
         for b in body:
             x ^= b
         return body + bytes([x])
+
+
+# ---- BEGIN pl15: stubs for nxslib/thread.py -----------------------------------------------------------
+# tools/pylite.py maps `threading.Event` -> SimEvent and `threading.Thread` -> SimThread; under CPython the
+# correspondence group `worker` rebinds `nxslib.thread.threading` to a namespace holding these classes.
+
+from nxslib.thread import ThreadCommon  # noqa: E402  (pl15: worker_new below constructs the real class)
+
+
+class SimEvent:
+    """Stand-in for threading.Event.  As long as `script` (a list of booleans) is not empty, is_set()
+    answers from it, one item per call (the scheduler's view: what the flag is by the time of that test,
+    other threads having moved in between); once it is exhausted is_set() answers the flag itself."""
+
+    def __init__(self):
+        self.flag = False
+        self.script = []
+
+    def set(self):
+        self.flag = True
+
+    def clear(self):
+        self.flag = False
+
+    def is_set(self):
+        if self.script:
+            x = self.script[0]
+            self.script = self.script[1:]
+            return x
+        return self.flag
+
+
+class SimThread:
+    """Stand-in for threading.Thread(target=..., name=...).  `state` is where the worker stands:
+    "created" (not started), "init" / "test" / "target" / "final" (started and running: about to execute
+    that line of ThreadCommon._thread_loop), "done" (returned).  start() puts a created thread at "init"
+    and raises RuntimeError otherwise (CPython: "threads can only be started once"); join() before
+    start() raises RuntimeError (CPython does); join() on a finished thread returns; join() on a running
+    thread cannot return in a sequential run (nobody moves the worker): it is counted and raises
+    BlockingIOError ("would block"), leaving the caller's state as it is at that line."""
+
+    def __init__(self, target=None, name=None):
+        self.target = target
+        self.name = name
+        self.state = "created"
+        self.joins = 0
+
+    def start(self):
+        if self.state != "created":
+            raise RuntimeError
+        self.state = "init"
+
+    def is_alive(self):
+        return self.state != "created" and self.state != "done"
+
+    def join(self):
+        if self.state == "created":
+            raise RuntimeError
+        self.joins += 1
+        if self.state != "done":
+            raise BlockingIOError
+
+
+class SimCb:
+    """A recording callable for init / target / final: counts its calls and raises RuntimeError at the
+    call number `fail_at` (0: never)."""
+
+    def __init__(self, fail_at=0):
+        self.calls = 0
+        self.fail_at = fail_at
+
+    def __call__(self):
+        self.calls += 1
+        if self.calls == self.fail_at:
+            raise RuntimeError
+
+
+def worker_view(w):
+    """what the worker property talks about: the flag, the handle, the recorded calls"""
+    t = w._thrd
+    tv = None
+    if t is not None:
+        tv = [t.state, t.name, t.joins, t.target]
+    cbs = []
+    for cb in [w._init, w._target, w._final]:
+        if cb is None:
+            cbs.append(None)
+        else:
+            cbs.append(cb.calls)
+    return [w._stop_flag.flag, w._stop_flag.script, tv, cbs]
+
+
+def worker_run(w, ops):
+    """a history of calls on a ThreadCommon whose event, thread and callbacks are the stubs above; the
+    harness moves the worker (`park`), installs a script for the flag, or breaks a callback; exceptions
+    are recorded and the history goes on, so that the state left behind by a failed call is compared too"""
+    views = []
+    for op in ops:
+        name = op[0]
+        try:
+            if name == "start":
+                views.append(w.thread_start())
+            elif name == "stop":
+                views.append(w.thread_stop())
+            elif name == "alive":
+                views.append(w.thread_is_alive())
+            elif name == "stop_set":
+                views.append(w.stop_set())
+            elif name == "is_set":
+                views.append(w._stop_is_set())
+            elif name == "clear":
+                views.append(w._stop_clear())
+            elif name == "loop":
+                views.append(w._thread_loop())
+            elif name == "park":
+                if w._thrd is not None:
+                    w._thrd.state = op[1]
+            elif name == "script":
+                w._stop_flag.script = op[1]
+            elif name == "fail":
+                if op[1] == 0 and w._init is not None:
+                    w._init.fail_at = w._init.calls + op[2]
+                elif op[1] == 1:
+                    w._target.fail_at = w._target.calls + op[2]
+                elif op[1] == 2 and w._final is not None:
+                    w._final.fail_at = w._final.calls + op[2]
+        except RuntimeError:
+            views.append("RuntimeError")
+        except BlockingIOError:
+            views.append("BlockingIOError")
+        except AssertionError:
+            views.append("AssertionError")
+        views.append(worker_view(w))
+    return views
+
+
+def worker_new(target, init, final, name):
+    """the constructor (with its assertions), then the view"""
+    w = ThreadCommon(target, init, final, name)
+    return [w._stop_flag, w._thrd, w._name, w._init, w._target, w._final]
+# ---- END pl15 -------------------------------------------------------------------------------------------
+# ---------------------------------------------------------------- pl14: receive thread / stream path (begin)
+def recv_run(comm, calls):
+    """call comm._recv_thread() `calls` times (the body of the receive thread: one reassembly step and the
+    routing of its frame); what is on the two queues afterwards, what is left buffered / unread"""
+    for _ in range(calls):
+        comm._recv_thread()
+    return [comm._q.items, comm._q_stream.items, comm._prev_read, comm._intf.chunks]
+
+
+def stream_data_run(comm, calls):
+    """call comm.stream_data() `calls` times over a scripted stream queue; the results (an assertion
+    failure is recorded and the history goes on) and what is left on the queue"""
+    out = []
+    for _ in range(calls):
+        try:
+            out.append(comm.stream_data())
+        except AssertionError:
+            out.append("AssertionError")
+        except struct.error:
+            out.append("struct.error")
+    return [out, comm._q_stream.items]
+
+
+class SubQueue:
+    """Stand-in for the queue.Queue a subscriber holds.  The interpreter's values have no identity: `serial`
+    (given by the harness) names the queue; put() appends to the queue's own list."""
+
+    def __init__(self, serial):
+        self.serial = serial
+        self.items = []
+
+    def put(self, x):
+        self.items = self.items + [x]
+
+
+def sub_view(nx):
+    """every subscriber queue, by channel, as [serial, items]; the overflow counter; what is left on the
+    stream-frame queue"""
+    rows = []
+    for sub in nx._sub_q:
+        row = []
+        for q in sub:
+            row.append([q.serial, q.items])
+        rows.append(row)
+    return copy.deepcopy([rows, nx._ovf_cntr, nx._comm._q_stream.items])
+
+
+def stream_thread_run(nx, calls):
+    """call nx._stream_thread() `calls` times (the body of the stream thread: next stream frame -> decoded
+    samples -> subscriber queues); the exceptions it can raise are recorded and the history goes on"""
+    views = []
+    for _ in range(calls):
+        try:
+            nx._stream_thread()
+        except AssertionError:
+            views.append("AssertionError")
+        except struct.error:
+            views.append("struct.error")
+        except IndexError:
+            views.append("IndexError")
+        views.append(sub_view(nx))
+    return views
+# ---------------------------------------------------------------- pl14 (end)
